@@ -625,8 +625,9 @@ class Engine:
         """An obligation came back unknown: try a fresh non-incremental z3 solver,
         then the external solvers."""
         t0 = time.time()
+        long_ms = self.obl_ms * 4          # second and third opinion get more time than the first attempt
         s = z3.Solver()
-        s.set('timeout', self.obl_ms)
+        s.set('timeout', long_ms)
         s.add(*self.pc)
         s.add(neg)
         r = s.check()
@@ -637,7 +638,7 @@ class Engine:
         if r == z3.unsat:
             return 'unsat', None
         smt = s.to_smt2()
-        r = external_check(smt, self.obl_ms)
+        r = external_check(smt, long_ms)
         if r == 'unsat':
             self.notes.append('obligation-decided-by-external-solver')
             return 'unsat', None
